@@ -341,13 +341,46 @@ class ExprGen(object):
         return self.op('$subtract', [self.sub('date', d), self.sub('date', d)])
 
     def n_group(self, d):
+        """$sum / $avg / $min / $max / $first / $last as expression operators.  $sum and $avg give a
+        number (or null) whatever their operands are, so these take operands of every type here;
+        $min / $max over operands of every type are generated at type `any` (y_group)"""
         op = self.r.choice(['$sum', '$avg', '$max', '$min', '$first', '$last'])
         x = self.r.random()
-        if x < 0.6:
-            return self.op(op, self.field('arr'))
         if op in ('$first', '$last'):
             return self.op(op, self.field('arr'))
-        return self.op(op, [self.sub('num', d) for _ in range(self.r.choice([1, 2, 3]))])
+        if x < 0.45:
+            return self.op(op, self.group_bare(mixed=op in ('$sum', '$avg')))
+        n = self.r.choice([1, 2, 2, 3, 3])
+        if op in ('$sum', '$avg'):
+            return self.op(op, [self.group_operand(d) for _ in range(n)])
+        return self.op(op, [self.sub('num', d) for _ in range(n)])
+
+    def group_bare(self, mixed):
+        """one operand that is not written as a list: mostly a field holding an array (the operator
+        then ranges over its elements), now and then a scalar, null or missing one"""
+        self.ops['$path'] += 1
+        if not mixed:
+            return '$' + self.r.choice(ARRF * 6 + ['d.l', 'q.n', 'zz', 'a'])
+        return '$' + self.r.choice(ARRF * 4 + SARRF + ANYF * 3 + QF + ['d.l', 'q.n', 'zz', 'a', 's'])
+
+    def group_operand(self, d):
+        """an operand of any type: the operators skip what they do not range over"""
+        y = self.r.random()
+        if y < 0.45:
+            return self.sub('num', d)
+        if y < 0.8:
+            return self.sub('any', d)
+        return self.sub(self.r.choice(['str', 'bool', 'bool', 'date', 'arr']), d)
+
+    def y_group(self, d):
+        """$min / $max (their value has the type of the winning operand), $sum / $avg over
+        operands of several types: numbers, strings, booleans, dates, null, missing, arrays,
+        documents"""
+        op = self.r.choice(['$max', '$min', '$max', '$min', '$sum', '$avg'])
+        if self.r.random() < 0.35:
+            return self.op(op, self.group_bare(mixed=True))
+        n = self.r.choice([0, 1, 2, 2, 3, 3, 4])
+        return self.op(op, [self.group_operand(d) for _ in range(n)])
 
     def n_strcasecmp(self, d):
         return self.op('$strcasecmp', [self.sub('str', d), self.sub('str', d)])
@@ -519,7 +552,7 @@ class ExprGen(object):
     def y_o2a(self, d):
         return self.op('$objectToArray', self.sub('doc', d))
 
-    p_any = [(10.0, y_any), (0.5, y_o2a)]
+    p_any = [(10.0, y_any), (0.5, y_o2a), (1.2, y_group)]
 
     # -- anomalies: ill-typed, malformed, unknown, not implemented ---------------------------------
     def anomalous(self, t, d):
